@@ -1287,7 +1287,7 @@ static int32 tls13WriteCertificateVerify(ssl_t *ssl, sslBuf_t *out)
             if (rc < 0)
             {
                 psFree(ssl->sec.tls13CvSig, ssl->hsPool);
-                psFree(ssl->hsPool, tbs);
+                ssl->sec.tls13CvSig = NULL;
                 psTraceErrr("Could not verify own sig!!\n");
                 psDynBufUninit(&cvBuf);
                 return rc;
@@ -1586,6 +1586,7 @@ static inline
 void tls13ClearHsTemporaryState(ssl_t *ssl)
 {
     psFree(ssl->sec.tls13CvSig, ssl->hsPool);
+    ssl->sec.tls13CvSig = NULL;
     Memset(&ssl->sec.tls13KsState, 0, sizeof(ssl->sec.tls13KsState));
 }
 
